@@ -6,31 +6,44 @@ From B2Z Require Gen.GenPartitions.
 Import ListNotations.
 Open Scope Z_scope.
 
-Lemma mapM_sections (f : Z -> Z -> (Z * Z)) : forall l a b, cchain a l b ->
-  mapM (fun s => bind (sec_first s) (fun x => bind (sec_last s) (fun y => Ok (f x y)))) l
-  = Ok (map (fun s => f (fst s) (snd s)) l).
+(* a monadic map over non-empty sections whose body succeeds pointwise is a pure map *)
+Lemma mapM_ext_chain (g : Z * Z -> res (Z * Z)) (h : Z * Z -> Z * Z) : forall l a b,
+  cchain a l b -> (forall s e, s <= e -> g (s, e) = Ok (h (s, e))) -> mapM g l = Ok (map h l).
 Proof.
-  induction l as [|[s e] tl IH]; intros a b H; cbn [mapM map]; [reflexivity|].
+  induction l as [|[s e] tl IH]; intros a b H Hg; cbn [mapM map]; [reflexivity|].
   cbn [cchain] in H. destruct H as [-> [Hle H]].
-  rewrite (IH _ _ H). unfold sec_first, sec_last. cbn [fst snd].
-  destruct (e <? a) eqn:E; [lia|]. reflexivity.
+  rewrite (Hg _ _ Hle), (IH _ _ H Hg). reflexivity.
 Qed.
+
+(* The script is written against the *shape* "split the chunk range, map each section to
+   a pair", not against the exact arithmetic text, so that harmless rewrites of the
+   source (temporaries, commuted min, reordered operands) still go through: the two
+   arguments of array_split_arange and the loop body are each compared with the model
+   by lia. *)
+Ltac bridge_partitions nr cs np mc :=
+  cbv zeta;
+  match goal with
+  | |- context [array_split_arange ?n ?k] =>
+      replace n with (capped_chunks nr cs mc) by (unfold capped_chunks; destruct mc; lia);
+      replace k with (Z.min np (capped_chunks nr cs mc)) by (unfold capped_chunks; destruct mc; lia)
+  end;
+  unfold array_split_arange;
+  match goal with |- context [?x <=? 0] => destruct (x <=? 0) eqn:?; [lia|] end;
+  cbn [bind];
+  match goal with |- context [sections 0 ?q ?r ?k] => fold (msections (capped_chunks nr cs mc) (Z.min np (capped_chunks nr cs mc))) end;
+  eapply mapM_ext_chain;
+  [ apply msections_chain; lia
+  | intros s e Hse; unfold sec_first, sec_last; cbn [fst snd];
+    destruct (e <? s) eqn:?; [lia|]; cbn [bind fst snd]; f_equal; f_equal; lia ].
 
 Lemma gen_generate_partitions_eq nr cs np mc :
   1 <= nr -> 1 <= cs -> 1 <= np -> mc_ok mc ->
   GenPartitions.generate_partitions nr cs np mc = Ok (generate_partitions nr cs np mc).
 Proof.
   intros Hnr Hcs Hnp Hmc.
-  unfold GenPartitions.generate_partitions, generate_partitions.
   destruct (capped_chunks_bounds nr cs mc Hnr Hcs Hmc) as [Hnc _].
-  change (match mc with Some max_chunks => Z.min (ceil_truediv nr cs) max_chunks | None => ceil_truediv nr cs end)
-    with (capped_chunks nr cs mc).
-  set (nc := capped_chunks nr cs mc) in *. cbv zeta.
-  unfold array_split_arange. destruct (Z.min np nc <=? 0) eqn:E; [lia|]. cbn [bind].
-  destruct (msections_chain nc (Z.min np nc) ltac:(lia)) as [Hc _].
-  fold (msections nc (Z.min np nc)).
-  erewrite (mapM_sections (fun x y => (x * cs, Z.min ((y + 1) * cs) nr))) by exact Hc.
-  reflexivity.
+  unfold GenPartitions.generate_partitions, generate_partitions.
+  bridge_partitions nr cs np mc.
 Qed.
 
 Lemma gen_chunk_aligned_slices_eq cs shape0 n mc :
@@ -38,16 +51,9 @@ Lemma gen_chunk_aligned_slices_eq cs shape0 n mc :
   GenPartitions.chunk_aligned_slices cs shape0 n mc = Ok (chunk_aligned_slices cs shape0 n mc).
 Proof.
   intros Hnr Hcs Hnp Hmc.
-  unfold GenPartitions.chunk_aligned_slices, chunk_aligned_slices, generate_partitions.
   destruct (capped_chunks_bounds shape0 cs mc Hnr Hcs Hmc) as [Hnc _].
-  change (match mc with Some max_chunks => Z.min (ceil_truediv shape0 cs) max_chunks | None => ceil_truediv shape0 cs end)
-    with (capped_chunks shape0 cs mc).
-  set (nc := capped_chunks shape0 cs mc) in *. cbv zeta.
-  unfold array_split_arange. destruct (Z.min n nc <=? 0) eqn:E; [lia|]. cbn [bind].
-  destruct (msections_chain nc (Z.min n nc) ltac:(lia)) as [Hc _].
-  fold (msections nc (Z.min n nc)).
-  erewrite (mapM_sections (fun x y => (x * cs, Z.min ((y + 1) * cs) shape0))) by exact Hc.
-  reflexivity.
+  unfold GenPartitions.chunk_aligned_slices, chunk_aligned_slices, generate_partitions.
+  bridge_partitions shape0 cs n mc.
 Qed.
 
 (* outside the input space: zero records -> numpy refuses to split into 0 sections *)
